@@ -141,6 +141,8 @@ class RepozoReplayer:
         self.opens_cache = {}
         self.counts = {'backup': 0, 'recover': 0, 'verify': 0, 'damage': 0, 'index': 0, 'restore': 0}
         self._ncache = {}
+        self.msrc = ()            # the model's chunk sequence after the last source step
+        self.relearned = []       # the data file changed where the model says it did not (see source_step)
         self.found = []           # property violations met so far (the replay goes on)
         self.tainted = False      # a recovery of the intact repository already failed the property on this path:
                                   # later recoveries are consequences, only conformance is judged for them
@@ -161,6 +163,7 @@ class RepozoReplayer:
         size = os.path.getsize(self.path)
         self.S = size - 4
         self.chunks[src[0]] = self._read(0, size)
+        self.msrc = tuple(src)
         self.magic = self.chunks[src[0]][:4]
         self.committed = size
         self._check_source(init_state)
@@ -233,22 +236,34 @@ class RepozoReplayer:
             self.clk += 1         # the aborted tid is never reused
         elif action == 'Pack':
             from ZODB.serialize import referencesf
-            d = args[0]
+            k = args[0]           # pack time just after the k-th transaction of the file: frees the k-1 before it
+            dec = self._n(state, 'res')['dec']
             before = self._read(0, self.committed)
-            self.st.pack(clock.T0 + self.secs[d] + 0.5, referencesf)
-            self.secs = self.secs[d:]
+            self.st.pack(clock.T0 + self.secs[k - 1] + 0.5, referencesf)
+            self.secs = self.secs[k - 1:]
             self.committed = os.path.getsize(self.path)
             if self.committed != self.off(len(src)):
-                raise RuntimeError('pack(%d) left %d bytes, expected %d' % (d, self.committed, self.off(len(src))))
-            for i, c in enumerate(src):
-                self.chunks[c] = self._read(self.off(i), self.off(i + 1))
-            # the model's "every chunk gets a fresh identity": no chunk-aligned range kept its bytes
+                raise RuntimeError('pack(%d) left %d bytes, expected %d' % (k, self.committed, self.off(len(src))))
             after = self._read(0, self.committed)
-            for i in range(len(src)):
-                if after[self.off(i):self.off(i + 1)] == before[self.off(i):self.off(i + 1)]:
-                    raise RuntimeError('pack left chunk %d unchanged: the model does not cover this history' % i)
+            for i, c in enumerate(src):
+                real = after[self.off(i):self.off(i + 1)]
+                same_place = before[self.off(i):self.off(i + 1)]
+                if i < len(self.msrc) and self.msrc[i] == c:
+                    # the model: this chunk is where and what it was
+                    if real != self.chunks[c]:
+                        # ... but the file changed there.  The data file is what it is (the property speaks of the
+                        # real bytes); the replay goes on with the chunk's new bytes and says so in what it reports
+                        self.chunks[c] = real
+                        self.relearned.append('Pack(%d) (%s in the model) changed bytes of transaction %d of the data file'
+                                              % (k, dec, i + 1))
+                else:
+                    self.chunks[c] = real
+                    if dec == 'freed' and real == same_place:
+                        # the model's "every chunk gets a fresh identity" after a pack that freed something
+                        raise RuntimeError('pack left chunk %d unchanged: the model does not cover this history' % i)
         else:
             raise RuntimeError('unknown source action %s' % action)
+        self.msrc = tuple(src)
         self._check_source(state)
 
     # ---- time ----------------------------------------------------------------
@@ -350,6 +365,8 @@ class RepozoReplayer:
         return ent[1]
 
     def _prop(self, sig, text):
+        if self.relearned:
+            text += ' [' + '; '.join(self.relearned[-2:]) + ']'
         self.found.append({'kind': 'property', 'sig': sig, 'text': text})
 
     def check_repo(self, state, t_new=None):
@@ -700,7 +717,8 @@ class RepozoReplayer:
                     continue
                 shutil.copyfile(os.path.join(srcdir, n), os.path.join(dd, n))
         return {'dir': d, 'clk': self.clk, 'serial': self.serial, 'secs': list(self.secs), 'chunks': dict(self.chunks),
-                'snaps': dict(self.snaps), 'committed': self.committed, 'tail': self.t is not None, 'tainted': self.tainted}
+                'snaps': dict(self.snaps), 'committed': self.committed, 'tail': self.t is not None, 'tainted': self.tainted,
+                'msrc': self.msrc, 'relearned': list(self.relearned)}
 
     def restore(self, snap):
         from ZODB.FileStorage import FileStorage
@@ -734,6 +752,8 @@ class RepozoReplayer:
         self.snaps = dict(snap['snaps'])
         self.committed = snap['committed']
         self.tainted = snap['tainted']
+        self.msrc = snap['msrc']
+        self.relearned = list(snap['relearned'])
         self.st = FileStorage(self.path, pack_keep_old=False)     # drops the unfinished transaction, if any
         if snap['tail']:
             self.clk -= 1
@@ -836,6 +856,8 @@ class Session:
                 r = self.rp._n(state, 'res')
                 k = '%s/%s' % (r['dec'], r['why'])
                 self.res['features'][k] = self.res['features'].get(k, 0) + 1
+                for f in self._pack_features(r, state):
+                    self.res['features'][f] = self.res['features'].get(f, 0) + 1
                 self.rp.backup_step(args, state)
             else:
                 raise RuntimeError('replayer does not know action %s' % action)
@@ -845,6 +867,27 @@ class Session:
             return False
         self._drain()
         return True
+
+    def _pack_features(self, r, state):
+        """What kind of pack lies between the previous backup run and this one (vacuity control):
+        'pack-nothing-freed>quick' is a pack that freed nothing (pack time before anything was garbage), after at
+        least one incremental was written, followed by a -Q run that relied on the last backed-up range."""
+        packs = []
+        for s in reversed(self.trail[:-1]):
+            if s['action'] == 'Backup':
+                break
+            if s['action'] == 'Pack':
+                packs.append(self.rp._n(s['state'], 'res')['dec'])
+        out = []
+        o = self.trail[-1]['args'][0]
+        mode = 'forced-full' if o & 1 else ('quick' if o & 2 else 'comparing')      # what kind of run follows the pack
+        for d in set(packs):
+            out.append('pack-%s>%s' % (d, mode))
+        if mode == 'quick' and r['why'] == 'quick-last-range' and set(packs) & {'nothing-freed', 'rewritten'}:
+            files = self.rp._n(state, 'files')
+            if any(not f['full'] and f['t'] < state['now'] for f in files):
+                out.append('pack-nothing-freed-after-incremental>quick')
+        return out
 
     def observe(self, state):
         """The queries of the current state (recovery as of every run, both verifications)."""
